@@ -347,6 +347,7 @@ class Interp:
         self.cur_mod: Optional[ModInfo] = None
         self.decide: Optional[Callable[[Any], Optional[bool]]] = None  # schema assumptions
         self.super_hook: Optional[Callable[..., Any]] = None  # model of external base-class methods
+        self.ext_results: Dict[str, Any] = {}  # scenario-fixed answers of external process-state queries
         self.call_stack: List[str] = []
         self._with_stack: List[List[Any]] = []
         self._gen_current: Any = None
@@ -545,6 +546,11 @@ class Interp:
             call = self.class_attr(f.cls, "__call__")
             if isinstance(call, FuncV):
                 return self.call_function(call, [f, *args], kwargs, node)
+        if isinstance(f, Obj) and f.cls_name == "torch.nn.Sequential" and f.cls is None and isinstance(f.attrs.get("_modules"), dict) and len(args) == 1 and not kwargs:
+            x_ = args[0]  # nn.Sequential.forward: the entries in order
+            for m_ in f.attrs["_modules"].values():
+                x_ = self.call_function(m_, [x_], {}, node)
+            return x_
         if isinstance(f, (TV, Obj)):
             # calling an opaque value (e.g. `fn(residual)`, a module attribute)
             term = T("callv", (_term(f), tuple(_term(a) for a in args), tuple(sorted((k, _term(v)) for k, v in kwargs.items()))))
@@ -2439,6 +2445,18 @@ class Interp:
             m_gi = self.dunder(v, "__getitem__")
             if m_gi is not None:
                 return self.call_function(m_gi, [idx], {}, node)
+            if isinstance(v, Obj) and isinstance(v.attrs.get("_modules"), dict) and isinstance(idx, (int, slice)):
+                # nn.Sequential / nn.ModuleList indexing: an int selects an entry, a slice a container of entries
+                ents = list(v.attrs["_modules"].values())
+                if isinstance(idx, int):
+                    if -len(ents) <= idx < len(ents):
+                        return ents[idx]
+                    self.log("raise", node, exc="IndexError")
+                    return BOTTOM
+                sub = Obj("torch.nn.Sequential", open_attrs=False)
+                sub.attrs["_modules"] = {str(i_): m_ for i_, m_ in enumerate(ents[idx])}
+                sub.attrs["training"] = v.attrs.get("training", True)
+                return sub
             shape = None
             vs = getattr(v, "shape", None)
             if vs is not None and isinstance(idx, tuple) and len(idx) == len(vs) and all(isinstance(i_, slice) or (isinstance(i_, T) and i_.op == "slice") or isinstance(i_, Gamma) for i_ in idx):
